@@ -32,6 +32,42 @@ func runC09(c *Ctx) {
 	c09R5(c)
 	c09R6(c)
 	c09R7(c)
+	c09R8(c)
+}
+
+// c09R8: whatever a standalone (WASM) processor module answers, the engine side
+// that waits for the answer is woken.
+func c09R8(c *Ctx) {
+	r := c.R.Rule("R8", "K4 a reply always reaches the waiter: every exit of hostModuleInstance.commandResponse has delivered a result (the decoded response or the decode error) on commandResponses, the channel executeCommand waits on", 2)
+	const rel = "pkg/plugin/processor/standalone"
+	fn := c.SSA(r, rel, "(*hostModuleInstance).commandResponse")
+	chF := c.Field(r, rel, "hostModuleInstance", "commandResponses")
+	if fn == nil || chF == nil {
+		return
+	}
+	g := kit.NewGates()
+	for _, b := range fn.Blocks {
+		for _, in := range b.Instrs {
+			switch x := in.(type) {
+			case *ssa.Send:
+				if kit.IsFieldLoad(x.Chan, chF) {
+					g.AddInstr(x, "commandResponses <- …")
+				}
+			case *ssa.Select:
+				for i, st := range x.States {
+					if st.Dir == types.SendOnly && kit.IsFieldLoad(st.Chan, chF) {
+						g.AddEdges(kit.SelectArmEdges(x, i), "commandResponses <- …")
+					}
+				}
+			}
+		}
+	}
+	c.R.Check(!g.Empty(), r, "commandResponse: delivers on commandResponses", c.Pos(fn.Pos()), "ok", "commandResponse no longer sends on commandResponses", false)
+	if g.Empty() || len(fn.Blocks) == 0 {
+		return
+	}
+	ok, _ := kit.AllExitsFromEdge(kit.Edge{From: nil, To: fn.Blocks[0]}, false, kit.ExitSpec{Gates: g})
+	c.R.Check(ok, r, "commandResponse: every exit has delivered a result to the waiting engine side", c.Pos(fn.Pos()), "ok", "an exit of commandResponse (e.g. the undecodable-response path) returns without sending anything on commandResponses: executeCommand, and with it Process/Open/Configure/Teardown of the processor, waits for ever — the record is neither acked nor nacked and the pipeline hangs", true)
 }
 
 // twoSided checks that every target is dominated (a) by an edge/instruction
